@@ -19,6 +19,15 @@ class DeadPath(Exception):
     """The path condition became unsatisfiable: abandon the path."""
 
 
+class Truncated(Exception):
+    """A loop whose trip count depends on abstract data was unrolled to the bound; the path is
+    abandoned and counted.  A run with truncated paths may report violations found on the
+    explored (feasible) paths, but can never conclude that the property holds."""
+
+
+truncated_paths = []
+
+
 class Sym:
     _n = itertools.count()
 
@@ -659,6 +668,9 @@ def explore(task, max_paths=20000):
         except PyRaise as r:
             res = ("raise", r)
         except DeadPath:
+            res = None
+        except Truncated as t:
+            truncated_paths.append(str(t))
             res = None
         P.closed = True
         if res is not None:
